@@ -7,10 +7,10 @@ namespace Inv
 def timerFired (t : TmPc) : Bool := t = .finish || t = .done
 
 def pastWait : MainPc → Bool
-  | .poll | .pollDead _ | .sendIntr => false
+  | .idle | .poll | .pollDead _ | .sendIntr => false
   | _ => true
 def pastSettle : MainPc → Bool
-  | .poll | .pollDead _ | .sendIntr | .settleCheck | .settleCancel => false
+  | .idle | .poll | .pollDead _ | .sendIntr | .settleCheck | .settleCancel => false
   | _ => true
 def decided : MainPc → Bool
   | .stop | .done => true
@@ -267,6 +267,15 @@ theorem timerInv_main (s : S) (h : TimerInv s) : TimerInv (mainStep s) := by
   have hcanc : s.tmPc = .cancelled → s.early = true := fun hc => (h4 hc).resolve_left hd
   unfold mainStep
   split
+  · -- idle
+    rename_i hpc
+    have hne : s.early = false := by
+      cases hx : s.early with
+      | false => rfl
+      | true => have := (h9 hx).1; simp [hpc, pastSettle] at this
+    exact ⟨h1, h2, h3, fun hc => Or.inr (hcanc hc), h5, by simp, by simp, by simp [hsf],
+      by simp [hne], by simp [pastSettle], by simp [pastWait], by simp, by simp [decided], h14,
+      by simp [decided], h16, by simp, h18, h19, by simp [hk0]⟩
   · -- poll
     rename_i hpc
     have hne : s.early = false := by
@@ -413,9 +422,9 @@ theorem timerInv_run (s : S) (evs : List Ev) (h : TimerInv s) : TimerInv (run s 
     | act a => exact timerInv_step s a h
     | env e => exact timerInv_env s e h
 
-theorem timerInv_init (hi ht w p e : Bool) (o er : List Chunk) (ins : List InItem) (ho sf : Bool) (n : Nat) :
-    TimerInv (S.init hi ht w p e o er ins ho sf n) := by
-  cases ht <;> cases sf <;> constructor <;> simp [S.init, timerFired, pastWait, pastSettle, decided]
+theorem timerInv_init (hi ht w p e : Bool) (o er : List Chunk) (ins : List InItem) (ho sf : Bool) (n : Nat) (asy : Bool) :
+    TimerInv (S.init hi ht w p e o er ins ho sf n asy) := by
+  cases ht <;> cases sf <;> cases asy <;> constructor <;> simp [S.init, timerFired, pastWait, pastSettle, decided]
 
 /-! ### the command seen to have finished in time: stability -/
 
@@ -579,10 +588,10 @@ theorem outcomeShape_run (s : S) (evs : List Ev) (ht : TimerInv s) (h : OutcomeS
       | env e => exact timerInv_env s e ht
     · exact outcomeShape_ev s e ht h
 
-theorem outcomeShape_init (hi ht w p e : Bool) (o er : List Chunk) (ins : List InItem) (ho sf : Bool) (n : Nat) :
-    OutcomeShape (S.init hi ht w p e o er ins ho sf n) := by
+theorem outcomeShape_init (hi ht w p e : Bool) (o er : List Chunk) (ins : List InItem) (ho sf : Bool) (n : Nat) (asy : Bool) :
+    OutcomeShape (S.init hi ht w p e o er ins ho sf n asy) := by
   intro hd hsf
-  cases sf <;> simp_all [S.init, decided]
+  cases sf <;> cases asy <;> simp_all [S.init, decided]
 
 /-- an issued kill ends the command: `killIssued → exited` along every schedule -/
 theorem killed_exited_ev (s : S) (e : Ev) (h : s.killIssued = true → s.exited = true) :
@@ -642,9 +651,9 @@ theorem sfInv_ev (s : S) (e : Ev) (ht : TimerInv s) (h : SfInv s) : SfInv (evSte
       (repeat' split) <;> simp_all
     | main => simp only [evStep, step]; unfold mainStep; simp only [hd]; exact hp
 
-theorem startFails_never_done (hi ht w p e : Bool) (o er : List Chunk) (ins : List InItem) (ho sf : Bool) (n : Nat)
-    (evs : List Ev) (h1 : (run (S.init hi ht w p e o er ins ho sf n) evs).startFails = true)
-    (h2 : (run (S.init hi ht w p e o er ins ho sf n) evs).processDone = true) : False := by
+theorem startFails_never_done (hi ht w p e : Bool) (o er : List Chunk) (ins : List InItem) (ho sf : Bool) (n : Nat) (asy : Bool)
+    (evs : List Ev) (h1 : (run (S.init hi ht w p e o er ins ho sf n asy) evs).startFails = true)
+    (h2 : (run (S.init hi ht w p e o er ins ho sf n asy) evs).processDone = true) : False := by
   have key : ∀ (s : S) (evs : List Ev), TimerInv s → SfInv s → SfInv (run s evs) := by
     intro s evs
     induction evs generalizing s with
@@ -657,7 +666,7 @@ theorem startFails_never_done (hi ht w p e : Bool) (o er : List Chunk) (ins : Li
         | act a => exact timerInv_step s a ht
         | env e => exact timerInv_env s e ht
       · exact sfInv_ev s e ht h
-  have := key _ evs (timerInv_init hi ht w p e o er ins ho sf n) (by intro _; simp [S.init]) h1
+  have := key _ evs (timerInv_init hi ht w p e o er ins ho sf n asy) (by intro _; simp [S.init]) h1
   rw [h2] at this; cases this
 
 end Inv
